@@ -16,10 +16,19 @@ CONFIG = {
                       "announced bytes, fails exactly on short input, re-encoding no longer, length-prefixed round trips, no panic "
                       "and (nil,-1) for any declared length beyond the input. The model is tied to the Go code by running both on "
                       "the same operations (1e5 quick / 2e6 thorough) and by direct oracles incl. every v < 2^30 (thorough).",
-        "level_note": "Trusted: Lean kernel (+ leanchecker in thorough), axioms propext/Classical.choice/Quot.sound, the Go harness and "
-                      "line-protocol canonicalisation; the tie between model and code is by execution (sampled), not by proof.",
+        "level_note": "Two ties, both checked on every run. (1) Translation: /verif/extract/cmd/quicwire translates quicwire/wire.go "
+                      "(go/ast + go/types; shifts, ors, index and slice expressions as written, partial operations in a Res monad) into "
+                      "lean/PatVerif/Generated/Quicwire.lean; Proofs/QuicwireRefine.lean proves each of the 11 translated functions equal "
+                      "to the model's, and Props/C19Gen.lean restates the clauses of C19 about the translated functions. A change of "
+                      "wire.go outside the translated subset, or one that breaks a refinement proof, is a broken obligation. "
+                      "(2) Execution: the correspondence stream and direct oracles. Trusted: Lean kernel (+ leanchecker in thorough), "
+                      "axioms propext/Classical.choice/Quot.sound, the translator (≈650 lines of Go) and Model/GoSem.lean (Go's operators on "
+                      "uint64/int/[]byte), the Go harness and line-protocol canonicalisation.",
         "trusted_base": COMMON_TB,
-        "assumptions": ["Go uint64/int arithmetic in quicwire does not wrap for the modelled inputs (lengths < 2^31)"],
+        "extractors": [{"name": "quicwire", "out": "Quicwire.lean"}],
+        "extra_modules": ["PatVerif.Proofs.QuicwireRefine", "PatVerif.Props.C19Gen"],
+        "assumptions": ["Go uint64/int arithmetic in quicwire does not wrap for the modelled inputs (lengths < 2^31)",
+                        "Model/GoSem.lean states Go's semantics of >>, <<, |, &, byte(), indexing, slicing and append correctly"],
         "contradicts": "PatVerif.Props.C19 (append_spec, size_spec, encLen_minimal, consume_encode, consume_prefix, "
                        "consume_fail_iff, reencode_shorter, consumeVarintBytes_total/short, *_roundtrip)",
     },
